@@ -22,8 +22,8 @@ STEP_FUNCS = [
     "util::decimal::ConstrainedDecimal ops (Add/Mul/div/try_from/From)",
 ]
 STEP_BOUNDS = ("one transaction from an arbitrary valid portfolio state; shapes (acting affiliate x set of affiliates "
-               "that transacted before) fixed per harness: a0_m1,a0_m7,a1_m3,a1_m1,a2_m7,a0_m0; quick tier: balances 0..15 whole "
-               "shares, ACB 0..10.00, shares 1..15, price 0..1.00, commission 0..0.15, FX rates 0.01..0.31; thorough tier: "
+               "that transacted before) fixed per harness: a0_m1,a0_m7,a1_m3,a1_m1,a2_m7,a0_m0; quick tier: balances 0..7 whole "
+               "shares, ACB 0..2.55, shares 1..7, price 0..0.31, commission 0..0.07, FX rates 0.01..0.15; thorough tier: "
                "balances 0..63, ACB 0..40.00, shares 1..63, price 0..5.00, commission 0..0.63, FX rates 0.01..1.27; "
                "symbolic CAD/USD and separate commission currency; split ratios 1..9 for 1..9; unwind 4 (1-character "
                "security/affiliate ids)")
@@ -34,10 +34,11 @@ STEP_OUTSIDE = ("values beyond the ranges above; fractional share balances; more
 
 PROPS = {
     "C01": {
-        "quick": [{"name": "steps", "harnesses": ["c01_buy_a0_m7", "c01_buy_a2_m7", "c01_sell_a0_m1", "c01_sell_a1_m3",
-                                                 "c01_roc_a0_m1", "c01_sfla_a0_m1", "c01_split_a0_m1", "c01_split_a2_m7",
-                                                 "c01_csvtx_defaults"],
-                   "jobs": 9}],
+        # the quick command must finish well inside 15 minutes on a loaded machine:
+        # four rows here; RoC and SfLA rows run in the quick tiers of C03/C04, all
+        # 22 shapes in the thorough tier
+        "quick": [{"name": "steps", "harnesses": ["c01_buy_a0_m7", "c01_sell_a0_m1", "c01_split_a0_m1", "c01_csvtx_defaults"],
+                   "jobs": 4}],
         "thorough": [{"name": "steps", "harnesses": C01_BUY + C01_SELL + C01_ROC + C01_SFLA + C01_SPLIT + ["c01_csvtx_defaults"],
                       "jobs": 8, "timeout_s": 20000, "harness_timeout_s": 4000}],
         # harnesses in which only one of the accepted/rejected branches exists
@@ -57,16 +58,17 @@ WINDOW_FUNCS = [
     "AffiliatePortfolioSecurityStatuses::{get_latest_post_status,get_latest_post_status_for_affiliate}",
     "time::Date +/- Duration (real crate)",
 ]
-WINDOW_BOUNDS = ("the loss sale settles on day 100 of 2020 (concrete); every other row settles at a symbolic offset 0..35 "
-                 "days before/after it (so 29,30,31 and same-day in both file orders are inside), share counts 1..15, "
-                 "opening balances 0..15; the action and affiliate at each index are fixed per harness (shapes listed in "
+WINDOW_BOUNDS = ("the loss sale settles on day 100 of 2020 (concrete); every other row settles at a symbolic offset 0..32 "
+                 "(quick) / 0..35 (thorough) days before/after it (so 29,30,31 and same-day in both file orders are inside) "
+                 "and trades a symbolic 0..3 days earlier, share counts 1..7 (quick) / 1..15 (thorough), opening balances "
+                 "0..7 / 0..15; the action and affiliate at each index are fixed per harness (shapes listed in "
                  "samples); unwind 5-6")
 WINDOW_OUTSIDE = ("more than 2 neighbours of the sale; more than 3 affiliates; fractional share counts in window rows; "
                   "windows crossing a year boundary (the real time crate computes the +/-30 days, but only from the "
                   "concrete anchor); split ratios other than m-for-1 with m<=3 in the C15 window shape")
 
 PROPS["C02"] = {
-    "quick": [{"name": "window", "harnesses": ["c02_w_buy_sale_buy", "c02_w_otherbuy_othersell_sale"], "jobs": 2, "mem_gb": 28,
+    "quick": [{"name": "window", "harnesses": ["c02_w_buy_sale_buy"], "jobs": 1, "mem_gb": 28,
                "harness_timeout_s": 2400, "cbmc_args": ["--max-field-sensitivity-array-size", "400"]}],
     "thorough": [{"name": "window", "harnesses": ["c02_w_buy_sale_buy", "c02_w_otherbuy_othersell_sale", "c02_w_otherbuy_sale_sell",
                                                   "c02_w_regbuy_sale_otherbuy_othersell", "c02_lemma_buy_sale"],
@@ -112,7 +114,7 @@ PROPS["C11"] = {
                 "through CBMC"),
 }
 PROPS["C15"] = {
-    "quick": [{"name": "splits", "harnesses": ["c15_w_buy_split_sale", "c15_w_sale_split_buy", "c15_w_otherbuy_othersplit_sale"], "jobs": 3,
+    "quick": [{"name": "splits", "harnesses": ["c15_w_sale_split_buy"], "jobs": 1,
                "mem_gb": 28, "harness_timeout_s": 2400, "cbmc_args": ["--max-field-sensitivity-array-size", "400"]}],
     "thorough": [{"name": "splits", "harnesses": ["c15_w_buy_split_sale", "c15_w_sale_split_buy", "c15_w_otherbuy_othersplit_sale"] + C01_SPLIT, "jobs": 3, "mem_gb": 28,
                   "timeout_s": 20000, "harness_timeout_s": 6000}],
@@ -131,7 +133,7 @@ PROPS["C16"] = {
     "thorough": [{"name": "state", "harnesses": ["c16_opening_status_equals_opening_buy"], "jobs": 1}],
     "functions": ["AffiliatePortfolioSecurityStatuses::new (with initial status)", "delta_for_tx (Buy)",
                   "set_latest_post_status", "get_next_pre_status", "get_latest_post_status"],
-    "bounds": ("opening position n = 1..15 (thorough 1..100) whole shares, total cost 0..10.00 (100.00); compared with "
+    "bounds": ("opening position n = 1..7 (thorough 1..63) whole shares, total cost 0..2.55 (40.00); compared with "
                "an opening purchase of n shares whose total cost is the same amount; the state is read back through "
                "every affiliate (default, b, registered)"),
     "outside": ("zero-share opening positions (no purchase equivalent), fractional shares; the 'dated more than 30 days "
@@ -165,8 +167,9 @@ CLAIMS = {
                  "superficial iff acquired>0 and held>0, numerator = min(sold, acquired, held), per-buyer portions, "
                  "over-applied flag). Thorough adds other-affiliate / registered-buyer / later-sale shapes and the "
                  "clause that a later sale inside the window reduces the holdings."),
-        "note": (TRUSTED + "Quick tier = two shapes (Buy, loss sale, Buy by the seller; Buy and Sell by another affiliate, "
-                 "then the loss sale); the other shapes are "
+        "note": (TRUSTED + "Quick tier = one shape (Buy, loss sale, Buy by the seller) with offsets 0..32 and 1..7 shares, "
+                 "sized to finish inside 15 minutes on a loaded machine; the other four shapes (incl. Buy and Sell by "
+                 "another affiliate before the sale) and the wider ranges are "
                  "thorough-tier only (10-20 GB and 10+ min each). NOT covered: the denied amount (loss x ratio with the "
                  "effective-cent rule), 'gain = loss - denied' and the validation of a user-supplied superficial loss "
                  "(0.001 tolerance, '!'): get_delta_superficial_loss_info did not get through CBMC in any configuration "
@@ -333,11 +336,12 @@ CLAIMS["C18"] = {
 NOT_APPLICABLE.pop("C18", None)
 
 PROPS["C04"] = {
-    "quick": [{"name": "lookahead", "harnesses": ["c04_lookahead_split_sell_exact_ratio"],
+    # quick: the known-finding harness (its own group: playback up front) and the
+    # cheap rejection steps; the exact-ratio look-ahead and the sell/RoC steps
+    # with symbolic amounts are in the thorough tier (and C01/C03 quick)
+    "quick": [{"name": "lookahead-known", "harnesses": ["c04_lookahead_split_sell_one_for_three"],
                "jobs": 1, "cbmc_args": SMALL, "mem_gb": 28, "harness_timeout_s": 2400},
-              {"name": "lookahead-known", "harnesses": ["c04_lookahead_split_sell_one_for_three"],
-               "jobs": 1, "cbmc_args": SMALL, "mem_gb": 28, "harness_timeout_s": 2400},
-              {"name": "steps", "harnesses": ["c01_sell_a0_m1", "c01_roc_a2_m7", "c01_split_a0_m7", "c01_sfla_a2_m7"],
+              {"name": "steps", "harnesses": ["c01_roc_a2_m7", "c01_sfla_a2_m7", "c01_split_a2_m7", "c01_sell_a1_m1"],
                "jobs": 4}],
     "thorough": [{"name": "lookahead", "harnesses": ["c04_lookahead_split_sell_exact_ratio", "c04_lookahead_split_sell_one_for_three",
                                                     "c02_w_otherbuy_sale_sell"],
@@ -413,9 +417,8 @@ CLAIMS["C05"] = {
 NOT_APPLICABLE.pop("C05", None)
 
 PROPS["C03"] = {
-    "quick": [{"name": "portions", "harnesses": ["c02_w_otherbuy_sale_sell"], "jobs": 1, "cbmc_args": SMALL, "mem_gb": 28,
-               "harness_timeout_s": 2400},
-              {"name": "rows", "harnesses": ["c01_sfla_a0_m1", "c01_sfla_a2_m7", "c01_sell_a1_m3"], "jobs": 3}],
+    "quick": [{"name": "portions", "harnesses": ["c02_w_otherbuy_sale_sell", "c01_sfla_a0_m1", "c01_sfla_a2_m7"], "jobs": 3,
+               "cbmc_args": SMALL, "mem_gb": 28, "harness_timeout_s": 2400}],
     "thorough": [{"name": "portions", "harnesses": ["c02_w_otherbuy_sale_sell", "c02_w_regbuy_sale_otherbuy_othersell",
                                                     "c03_lemma_buy_buy_sale_sell"],
                   "jobs": 2, "cbmc_args": SMALL, "mem_gb": 28, "timeout_s": 20000, "harness_timeout_s": 6000},
